@@ -13,6 +13,7 @@
         HResize     r m      scores.resize(r, m)
         HClone               scores = scores.clone()
         HDefault             scores = Default::default()   (= StripedScores::empty())
+        HFill       v        scores.matrix_mut().fill(v)   (the caller scribbles over the buffer)
       where a call c names the pipeline (generic, SSE2, AVX2, an arm of the dispatcher), the
       alphabet size, the scoring matrix (+ the contents of its padding) and the striped sequence:
       different calls of one history may use different motifs, sequences and alphabets;
@@ -97,7 +98,8 @@ Section Hist.
   | HRowsInto (c : call) (a b : nat)
   | HResize (rows maxi : nat)
   | HClone
-  | HDefault.
+  | HDefault
+  | HFill (v : T).
 
   Definition hstep (op : hop) (buf : sscores T) : res (sscores T) :=
     match op with
@@ -106,6 +108,7 @@ Section Hist.
     | HResize rows maxi => Ok (sc_resize zero C buf rows maxi)
     | HClone => Ok buf
     | HDefault => Ok sc_empty
+    | HFill v => Ok (mkScores (map (map (fun _ => v)) (sc_mat buf)) (sc_max buf))
     end.
 
   Definition hrun (ops : list hop) (buf : sscores T) : res (sscores T) :=
